@@ -1064,6 +1064,10 @@ func (w *World) cleanupArchetype(arch *archetype) {
 	if arch.Len() > 0 || !arch.node.HasRelation {
 		return
 	}
+	if !arch.IsActive() {
+		// Already removed, e.g. by cleanupArchetypes for an entity that was its own relation target.
+		return
+	}
 	target := arch.RelationTarget
 	if target.IsZero() || w.Alive(target) {
 		return
